@@ -79,7 +79,7 @@ def layout(mantissa):
 class Proof:
     pass
 
-def prove(r, gen, mantissa, exp, min_value, digits=None, blind=None, extra=b'', b0_or=0, small_s=True, has_min=None, forged_at=None, sec_at=None):
+def prove(r, gen, mantissa, exp, min_value, digits=None, blind=None, extra=b'', b0_or=0, small_s=True, has_min=None, forged_at=None, sec_at=None, alias_at=()):
     """adversarial prover.  mantissa 0 = exact-value proof (no range).  exp is what is WRITTEN in the
     header (any 0..31); the group elements use scale = 10^exp.  All randomness from r (Rng).
     Forged s values are small (< 2^120) when small_s so that s + n still fits in 32 bytes."""
@@ -108,7 +108,9 @@ def prove(r, gen, mantissa, exp, min_value, digits=None, blind=None, extra=b'', 
     nsign = (rings + 6) >> 3
     signs = bytearray(nsign); xs = b''; hashed = b''
     for i in range(rings - 1):
-        sp = ser_point(D[i]); signs[i >> 3] |= sp[0] << (i & 7); xs += sp[1:]; hashed += sp
+        sp = ser_point(D[i])
+        if i in alias_at: sp = sp[:1] + b32(D[i][0] + P)      # non-canonical x coordinate (only encodable for tiny x); hashed as written
+        signs[i >> 3] |= sp[0] << (i & 7); xs += sp[1:]; hashed += sp
     m = sha256(ser_point(commit) + ser_point(gen) + hdr + hashed + extra)
     k = [r.seckey() for _ in range(rings)]
     forged = [(r.bits(r.choice([1, 8, 64, 120])) or 1) if small_s else r.seckey() for _ in pubs]
